@@ -70,3 +70,16 @@ func VerifHarness_C16_BadSignature() {
 	verifAssert(err != nil, "header without 'acsp' accepted")
 	verifAssert(p == nil, "profile returned for header without 'acsp'")
 }
+
+// VerifHarness_C16_NegControl: deliberately wrong spec (size taken from offset 4);
+// must be reported as violated, else the assertions are not connected to the code.
+func VerifHarness_C16_NegControl() {
+	h := verifBytes(128)
+	verifAssume(verifBE32(h, 36) == 0x61637370)
+	in := append(append([]byte{}, h...), verifMinimalTagTable()...)
+	p, err := NewProfileReader(bytes.NewReader(in)).ReadProfile()
+	if err != nil || p == nil {
+		return
+	}
+	verifAssert(p.Header.ProfileSize == verifBE32(h, 4), "negative control: ProfileSize = BE32 @4 (wrong on purpose)")
+}
